@@ -874,3 +874,118 @@ _c09_prev5 = harnesses
 
 def harnesses(tier):   # noqa: F811
     return _c09_prev5(tier) + [UnitListShown()]
+
+
+# --------------------------------------------------------------------------------------------------------------
+# The duration breakdown with the *real* labelling of its parts: to_list hands every part to to_parts, which may put an SI
+# prefix on a large count (1000 years show as `1 kiloyear`); whatever label a part gets, it stays in its field of the reply.
+
+class DurationReplyLabelled(Harness):
+    name = 'eval_query.duration_reply.real_labels'
+    props = ('C09',)
+    entry = 'eval_query'
+    loop_bound = 400
+    max_paths = 40000
+    _concrete = None
+    describe = ('eval_query on plain time values from a fixed list with the real to_list / to_parts / prettify (database prefix table) / canonicalize: '
+                'each of years..seconds carries its part whatever label prettify gave it, and the parts times the unit values sum to the value')
+    bounds = ['units year..second with their database values, defined as plain (non-alias) units of a synthetic registry; the database prefix table',
+              'concrete companion (no symbolic variable): nine values from half a second to 1e20 s, around 999 / 1000 / 1001 / 1e6 years']
+    expect_classes = ['Result::Ok']
+    stubs = (SHOW_STUB, CONF_STUB, UNKNOWN_STUB, DEFAULT_PARTS,
+             (r'^Number::numeric_value$', _record_numeric_value, 'Number::numeric_value -> records the value it is asked to print, returns a marker numeral'),
+             (r'^eval_expr$', lambda ex, nc, a: ok(dup(ex.env['value'])), 'eval_expr -> arbitrary number of seconds'))
+
+    def build(self, ex, I):
+        table = dbvalues.prefixes()
+        vals = dbvalues.units(DURATION_UNITS)
+        self.consts = [(n, Fraction(vals[n]['value'])) for n in DURATION_UNITS]
+        base, longn, units, defs = MapV(), MapV(), MapV(), MapV()
+        base.ent['s'] = [base_unit('s'), True, Tup([])]
+        longn.ent['s'] = ['s', True, 'second']
+        units.ent['second'] = ['second', True, number(rational(Fraction(1)), dim({'s': (True, 1)}))]
+        defs.ent['second'] = ['second', True, expr_unit(ex, 's')]
+        for n, c in self.consts[:-1]:
+            units.ent[n] = [n, True, number(rational(c), dim({'s': (True, 1)}))]
+            defs.ent[n] = [n, True, expr_const(ex, rational(c))]
+        reg = make_struct(ex, 'Registry', {'base_units': base, 'base_unit_long_names': longn, 'units': units, 'definitions': defs,
+                                           'quantities': MapV(), 'prefixes': Arr([Tup([n, rational(Fraction(val))]) for n, val in table])})
+        ctxv = make_struct(ex, 'Context', {'registry': reg, 'temporaries': MapV(), 'previous_result': none(ex)})
+        ex.env['printed'] = []
+        # concrete companion: with all six parts symbolic the prefix choices multiply (about 1000 paths of 3 s each), so the
+        # value is one of a fixed list that walks the year count through the prefixes
+        cy = self.consts[0][1]
+        vals_ = [cy * 1000 + 259200, cy * 999 + 259200, cy * 10 ** 6 + 1, Fraction(10) ** 20, Fraction(12 * 604800 + 1), -(cy * 2500 + 3600), cy * 1001,
+                 Fraction(59), Fraction(1, 2)]
+        v = vals_[ex.choose(len(vals_), 'value')]
+        ex.env['value'] = variant(ex, 'Value', 'Number', [number(rational(v), dim({'s': (True, 1)}))])
+        q = variant(ex, 'Query', 'Expr', [expr_const(ex, rational(Fraction(1)))])
+        return [ref(ctxv), ref(q)], {'v': v}
+
+    def post(self, ex, ctx, outcome):
+        v = zreal(ctx['v'])
+        r = deref_all(outcome[1])
+        if not is_ok(r):
+            return [('a time value has a duration breakdown', False)]
+        rep = deref_all(payload(r))
+        if rep.vname != 'Duration':
+            return [('a time value yields a Duration reply (got %s)' % rep.vname, False)]
+        dr = deref_all(rep.fields[0])
+        f = ex.prog.src.structs['DurationReply']
+        rv = ex.prog.src.structs['NumberParts'].index('raw_value')
+        total = z3.RealVal(0)
+        obs = []
+        for key, (nm, c) in zip(['years', 'weeks', 'days', 'hours', 'minutes', 'seconds'], self.consts):
+            np_ = deref_all(dr.fields[f.index(key)])
+            raw = np_.fields[rv]
+            if not is_some(raw):
+                return [('%s carries its part' % key, False)]
+            total = total + zreal(numeric_parts(number_parts(payload(raw))[0])[1]) * zreal(c)
+        obs.append(('years..seconds times the unit values sum to the value', total == v))
+        return obs
+
+    def prefer(self, ctx):
+        return []
+
+    PROBES = ['1000 year + 3 day', '31556925975 s', '1e20 s', '-(2500 year + 1 hour)', '999 year + 3 day', '12 week + 1 s']
+
+    def case(self, ctx, vals, label):
+        c = Harness.case(self, ctx, vals, label)
+        c['inputs']['v'] = str(Fraction(ctx['v']))
+        return c
+
+    def native(self, inputs, label):
+        return [{'mode': 'query', 'text': '%s s' % frac_text(Fraction(inputs['v']))}] + [{'mode': 'query', 'text': t} for t in self.PROBES]
+
+    def judge(self, inputs, label, obs):
+        helper = ToList(6, consts=[(n, Fraction(dbvalues.units(DURATION_UNITS)[n]['value'])) for n in DURATION_UNITS], name='x')
+        bad = []
+        texts = ['%s s' % frac_text(Fraction(inputs['v']))] + self.PROBES
+        for t, o in zip(texts, obs):
+            if o.get('outcome') == 'panic' or o.get('render_panic'):
+                bad.append('`%s` panics' % t)
+                continue
+            j = o.get('json') or {}
+            if j.get('type') != 'duration':
+                continue
+            raw = obs_number_json(o)
+            if raw is None:
+                continue
+            total = Fraction(0)
+            missing = []
+            for key, (nm, c) in zip(['years', 'weeks', 'days', 'hours', 'minutes', 'seconds'], helper.consts):
+                num = (((j.get(key) or {}).get('rawValue') or {}).get('value') or {})
+                try:
+                    total += Fraction(int(num['numer']), int(num['denom'])) * c
+                except (KeyError, ValueError, TypeError):
+                    missing.append(key)
+            if missing or total != raw[0]:
+                bad.append('`%s` = %r: %s; parts sum to %s s of %s s' % (t, o.get('display'), ('no value in ' + ', '.join(missing)) if missing else 'all parts present', total, raw[0]))
+        return bool(bad), '; '.join(bad[:2]) or 'long durations keep all their parts'
+
+
+_c09_prev6 = harnesses
+
+
+def harnesses(tier):   # noqa: F811
+    return _c09_prev6(tier) + [DurationReplyLabelled()]
